@@ -29,3 +29,18 @@ klass("SymbolTableError", bases=("Exception",), exception=True)
 
 # G4: the open scoping regions, outermost first
 ghost("scope_stack", "list[ref]")
+
+klass("FparserException", bases=("Exception",), exception=True, fields=dict(message="str"))
+klass("NoMatchError", bases=("FparserException",), exception=True)
+klass("FortranSyntaxError", bases=("FparserException",), exception=True)
+klass("InternalError", bases=("FparserException",), exception=True)
+klass("InternalSyntaxError", bases=("FparserException",), exception=True)
+
+klass("Base", module="fparser.two.utils", fields=dict(parent="ref:Base?", item="ref?", string="any", content="list[ref:Base]"))
+klass("BlockBase", bases=("Base",), module="fparser.two.utils")
+klass("StmtBase", bases=("Base",), module="fparser.two.utils")
+klass("EndStmtBase", bases=("StmtBase",), module="fparser.two.utils")
+klass("ScopingRegionMixin", module="fparser.two.utils")
+
+# G1: items the reader will still deliver, next first
+ghost("view", "list[ref]")
